@@ -97,8 +97,10 @@ structure ARun where
   cap : Cap := default
   deriving Inhabited
 
-structure St where
-  rk : RK := RK.init
+/-- Interpreter state of code running since the scheduler last acted at kernel state `k0`: the kernel state is
+reachable, and reachable from `k0` by body ops only (so, by typing, such code never starts a job or empties the queue). -/
+structure St (k0 : K) where
+  rk : BK k0
   slots : List (Option Nat) := []
   rslots : List (Option (Option Fn × Option Fn)) := []
   bad : List (Nat × Nat) := []       -- native promises with an overridden own `then`: promise id ↦ thenable descriptor
@@ -108,9 +110,9 @@ structure St where
   events : List String := []     -- newest first
   oof : Bool := false
 
-instance : Inhabited St := ⟨{}⟩
+abbrev M (k0 : K) := StateM (St k0)
 
-abbrev M := StateM St
+variable {k0 : K}
 
 inductive Arg | v (x : Val) | f (fn : Fn)
   deriving Inhabited
@@ -124,10 +126,10 @@ inductive ActsOut | done | abort | await (v : Val) (isTry : Bool) (rest : List A
 def setExt {α : Type} (l : List α) (i : Nat) (x : α) (dflt : α) : List α :=
   if i < l.length then l.set i x else l ++ List.replicate (i - l.length) dflt ++ [x]
 
-def kget : M K := do return (← get).rk.val
-def op (o : KOp) : M Unit := modify fun st => { st with rk := st.rk.apply o }
-def emit (s : String) : M Unit := modify fun st => { st with events := s :: st.events }
-def outOfFuel : M Unit := modify fun st => { st with oof := true }
+def kget : M k0 K := do return (← get).rk.val
+def op (o : BOp) : M k0 Unit := modify fun st => { st with rk := st.rk.apply o }
+def emit (s : String) : M k0 Unit := modify fun st => { st with events := s :: st.events }
+def outOfFuel : M k0 Unit := modify fun st => { st with oof := true }
 
 def slotOf (slots : List (Option Nat)) (q : Nat) : Option Nat :=
   let rec go : List (Option Nat) → Nat → Option Nat
@@ -154,7 +156,7 @@ def reprVals (slots : List (Option Nat)) : List Val → String
   | v :: vs => reprVal slots v ++ "," ++ reprVals slots vs
 end
 
-def reprM (v : Val) : M String := do return reprVal (← get).slots v
+def reprM (v : Val) : M k0 String := do return reprVal (← get).slots v
 
 def argVal : List Arg → Nat → Val
   | [], _ => .undef
@@ -168,17 +170,17 @@ def argFn : List Arg → Nat → Option Fn
   | .v _ :: _, 0 => none         -- assertCallable fails
   | _ :: rest, n + 1 => argFn rest n
 
-def doReject (l : Nat) (v : Val) : M Unit := op (.callReject l v)
+def doReject (l : Nat) (v : Val) : M k0 Unit := op (.callReject l v)
 
 /-- newPromiseCapability(%Promise%) (builtin_promise.go:281-286). -/
-def newCapM : M Cap := do
+def newCapM : M k0 Cap := do
   let k ← kget
   let p := k.proms.length
   let l := k.latches.length
   op .newCap
   return { promise := p, res := .resolve l, rej := .reject l }
 
-def evalV (e : VExpr) (arg : Val) : M Val := do
+def evalV (e : VExpr) (arg : Val) : M k0 Val := do
   match e with
   | .u => return .undef
   | .n k => return .num k
@@ -196,7 +198,7 @@ def evalV (e : VExpr) (arg : Val) : M Val := do
     modify fun st => { st with bad := (cap.promise, tid) :: st.bad }
     return .prom cap.promise
 
-def evalVs (es : List VExpr) (arg : Val) : M (List Val) := do
+def evalVs (es : List VExpr) (arg : Val) : M k0 (List Val) := do
   match es with
   | [] => return []
   | e :: rest =>
@@ -204,11 +206,11 @@ def evalVs (es : List VExpr) (arg : Val) : M (List Val) := do
     let vs ← evalVs rest arg
     return v :: vs
 
-def badTid (st : St) (q : Nat) : Option Nat := lookupId st.bad q
+def badTid (st : St k0) (q : Nat) : Option Nat := lookupId st.bad q
 
 /-- The user-defined `then` accessor of a thenable / of a promise with an overridden own `then`: logs, then throws or
 yields the descriptor's function. -/
-def userThenLook (prog : Prog) (tid : Nat) : M ThenLook := do
+def userThenLook (prog : Prog) (tid : Nat) : M k0 ThenLook := do
   emit ("g" ++ toString tid)
   match lookupId prog.thens tid with
   | none => return .notCallable
@@ -217,7 +219,7 @@ def userThenLook (prog : Prog) (tid : Nat) : M ThenLook := do
     | none => return .callable (.thenableThen tid)
 
 /-- `obj.self.getStr("then")` + assertCallable on the resolution (builtin_promise.go:96-104). -/
-def thenLookM (prog : Prog) (v : Val) : M ThenLook := do
+def thenLookM (prog : Prog) (v : Val) : M k0 ThenLook := do
   match v with
   | .prom q =>
     match badTid (← get) q with
@@ -227,7 +229,7 @@ def thenLookM (prog : Prog) (v : Val) : M ThenLook := do
   | _ => return .notCallable
 
 /-- Calling a resolve function (builtin_promise.go:87-111): latch check, self check, then-lookup. -/
-def doResolve (prog : Prog) (l : Nat) (v : Val) : M Unit := do
+def doResolve (prog : Prog) (l : Nat) (v : Val) : M k0 Unit := do
   let k ← kget
   match k.latches[l]? with
   | none => return ()
@@ -239,32 +241,32 @@ def doResolve (prog : Prog) (l : Nat) (v : Val) : M Unit := do
       op (.callResolve l v look)
 
 /-- promiseCapability.resolve / .reject (builtin_promise.go:385-391): the capability's own functions. -/
-def capResolve (prog : Prog) (cap : Cap) (v : Val) : M Unit := do
+def capResolve (prog : Prog) (cap : Cap) (v : Val) : M k0 Unit := do
   match cap.res with
   | .resolve l => doResolve prog l v
   | .logRes c => emit ("R" ++ toString c ++ ":" ++ (← reprM v))
   | _ => pure ()
 
-def capReject (cap : Cap) (v : Val) : M Unit := do
+def capReject (cap : Cap) (v : Val) : M k0 Unit := do
   match cap.rej with
   | .reject l => doReject l v
   | .logRej c => emit ("J" ++ toString c ++ ":" ++ (← reprM v))
   | _ => pure ()
 
 /-- promiseProto_then + performPromiseThen (builtin_promise.go:271-336) on native promise `p`. -/
-def performThen (p : Nat) (onF onR : Option Fn) : M Nat := do
+def performThen (p : Nat) (onF onR : Option Fn) : M k0 Nat := do
   let cap ← newCapM
   op (.addReactions p (some cap) onF onR)
   return cap.promise
 
 /-- Promise.prototype.then itself, called on v. -/
-def invokeThen (v : Val) (args : List Arg) : M Res := do
+def invokeThen (v : Val) (args : List Arg) : M k0 Res := do
   match v with
   | .prom p => return .normal (.prom (← performThen p (argFn args 0) (argFn args 1)))
   | _ => return .throw .typeErr
 
 /-- promiseResolve(%Promise%, x) (builtin_promise.go:342-352). -/
-def promiseResolveM (prog : Prog) (x : Val) : M Nat := do
+def promiseResolveM (prog : Prog) (x : Val) : M k0 Nat := do
   match x with
   | .prom q => return q           -- x.constructor === %Promise%
   | _ =>
@@ -274,7 +276,7 @@ def promiseResolveM (prog : Prog) (x : Val) : M Nat := do
 
 /-- `setP(d, r)`: promises with an overridden own `then` are never stored in a slot (keeps every program terminating:
 a thenable's body can then never get hold of a promise whose `then` is itself). -/
-def setSlot (d : Nat) (q : Nat) : M Unit :=
+def setSlot (d : Nat) (q : Nat) : M k0 Unit :=
   modify fun st => if (lookupId st.bad q).isSome then st else { st with slots := setExt st.slots d (some q) none }
 
 def hfn (f : Option Nat) : Option Fn := f.map Fn.user
@@ -286,7 +288,7 @@ def fopt (f : Option Fn) : Arg :=
 
 /-- An element function of all/allSettled/any is called: alreadyCalled check, store, count down, maybe settle the
 aggregate (builtin_promise.go:416-427, :453-468, :497-510). -/
-def combElem (prog : Prog) (c idx : Nat) (x : Val) (asErrors : Bool) : M Unit := do
+def combElem (prog : Prog) (c idx : Nat) (x : Val) (asErrors : Bool) : M k0 Unit := do
   let st ← get
   let cb := st.combs.getD c default
   let (r', fired) := cb.crec.elemCall idx x
@@ -298,7 +300,7 @@ def combElem (prog : Prog) (c idx : Nat) (x : Val) (asErrors : Bool) : M Unit :=
 mutual
 
 /-- Call a callable value. -/
-def callFn (prog : Prog) : Nat → Fn → Val → List Arg → M Res
+def callFn (prog : Prog) : Nat → Fn → Val → List Arg → M k0 Res
   | 0, _, _, _ => do outOfFuel; return .abort
   | n + 1, fn, this, args => do
     match fn with
@@ -358,14 +360,15 @@ def callFn (prog : Prog) : Nat → Fn → Val → List Arg → M Res
         runAsync prog n ar r.rest
       else
         capReject r.cap e                             -- func.go:716
+        op (.asyncDone ar)
         return .normal .undef
 
 /-- `r.invoke(v, "then", args…)` / JavaScript `v.then(args…)`: look `then` up on v (own overridden accessor of a
 "bad" promise or of a thenable: user code), then call it. -/
-def invokeThenR (prog : Prog) : Nat → Val → List Arg → M Res
+def invokeThenR (prog : Prog) : Nat → Val → List Arg → M k0 Res
   | 0, _, _ => do outOfFuel; return .abort
   | n + 1, v, args => do
-    let user (tid : Nat) : M Res := do
+    let user (tid : Nat) : M k0 Res := do
       match ← userThenLook prog tid with
       | .throws e => return .throw e
       | .callable f => callFn prog n f v args
@@ -381,7 +384,7 @@ def invokeThenR (prog : Prog) : Nat → Val → List Arg → M Res
 /-- A `P[d] = P[k].then(f, g)`-like statement of the op language:
 `try { var r = P[k].then(f, g); if (r instanceof Promise) P[d] = r } catch (e) { E.push("e:" + repr(e)) }`.
 Returns true on abort. -/
-def jsThen (prog : Prog) : Nat → Nat → Nat → Option Fn → Option Fn → M Bool
+def jsThen (prog : Prog) : Nat → Nat → Nat → Option Fn → Option Fn → M k0 Bool
   | 0, _, _, _, _ => do outOfFuel; return true
   | n + 1, p, d, onF, onR => do
     match ← invokeThenR prog n (.prom p) [fopt onF, fopt onR] with
@@ -392,7 +395,7 @@ def jsThen (prog : Prog) : Nat → Nat → Nat → Option Fn → Option Fn → M
 
 /-- The body of iter.iterate in promise_all / allSettled / any / race (builtin_promise.go:411-430 etc.) over the
 already evaluated input values.  `none` = loop completed; `some r` = abrupt completion r (throw / abort). -/
-def combLoop (prog : Prog) : Nat → CombKind → Nat → Cap → Option (Nat × CDesc) → List Val → Nat → M (Option Res)
+def combLoop (prog : Prog) : Nat → CombKind → Nat → Cap → Option (Nat × CDesc) → List Val → Nat → M k0 (Option Res)
   | 0, _, _, _, _, _, _ => do outOfFuel; return some .abort
   | _ + 1, _, _, _, _, [], _ => return none
   | n + 1, kind, c, pcap, ctor, val :: rest, idx => do
@@ -417,7 +420,7 @@ def combLoop (prog : Prog) : Nat → CombKind → Nat → Cap → Option (Nat ×
     | other => return some other
 
 /-- Run a function body: actions, then completion. -/
-def execBody (prog : Prog) : Nat → Body → Val → M Res
+def execBody (prog : Prog) : Nat → Body → Val → M k0 Res
   | 0, _, _ => do outOfFuel; return .abort
   | n + 1, b, a => do
     match ← execActs prog n b.acts a with
@@ -429,7 +432,7 @@ def execBody (prog : Prog) : Nat → Body → Val → M Res
       | .throw v => return .throw (← evalV v a)
 
 /-- Resume/start async runner `ar` on the remaining actions (asyncRunner.step, func.go:710-732). -/
-def runAsync (prog : Prog) : Nat → Nat → List Act → M Res
+def runAsync (prog : Prog) : Nat → Nat → List Act → M k0 Res
   | 0, _, _ => do outOfFuel; return .abort
   | n + 1, ar, acts => do
     match ← execActs prog n acts .undef with
@@ -439,21 +442,22 @@ def runAsync (prog : Prog) : Nat → Nat → List Act → M Res
       match r.compl with
       | .ret v => capResolve prog r.cap (← evalV v .undef)     -- func.go:714
       | .throw v => capReject r.cap (← evalV v .undef)         -- func.go:716
+      op (.asyncDone ar)
       return .normal .undef
     | .await v isTry rest =>
       let q ← promiseResolveM prog v                           -- func.go:722
       modify fun st =>
         let r := st.asyncs.getD ar default
         { st with asyncs := st.asyncs.set ar { r with rest := rest, inTry := isTry } }
-      op (.addReactions q none (some (.asyncFul ar)) (some (.asyncRej ar)))   -- func.go:723-732
+      op (.await ar q)                                         -- func.go:723-732: the activation is suspended
       return .normal .undef
 
 /-- Execute actions in order. -/
-def execActs (prog : Prog) : Nat → List Act → Val → M ActsOut
+def execActs (prog : Prog) : Nat → List Act → Val → M k0 ActsOut
   | 0, _, _ => do outOfFuel; return .abort
   | _ + 1, [], _ => return .done
   | n + 1, act :: rest, a => do
-    let cont : M ActsOut := execActs prog n rest a
+    let cont : M k0 ActsOut := execActs prog n rest a
     match act with
     | .log k => emit ("l" ++ toString k); cont
     | .new k s f =>                                   -- builtin_newPromise, builtin_promise.go:246-269
@@ -546,8 +550,9 @@ def execActs (prog : Prog) : Nat → List Act → Val → M ActsOut
       | none => cont
       | some b =>
         let cap ← newCapM
-        let ar := (← get).asyncs.length
-        modify fun st => { st with asyncs := st.asyncs ++ [{ rest := b.acts, compl := b.compl, cap := cap }] }
+        let ar := (← kget).runners.length
+        op .asyncStart
+        modify fun st => { st with asyncs := setExt st.asyncs ar { rest := b.acts, compl := b.compl, cap := cap } default }
         emit ("a" ++ toString aid)
         match ← runAsync prog n ar b.acts with
         | .abort => return .abort
@@ -557,101 +562,145 @@ def execActs (prog : Prog) : Nat → List Act → Val → M ActsOut
 
 end
 
-/-- Run the job at the head of the current batch (runtime.go:2875-2877). Returns true on abort. -/
-def runJob (prog : Prog) (fuel : Nat) : M Bool := do
-  let k ← kget
-  match k.jobs with
-  | [] => return false
+/-- The body of a job (after the scheduler has started it).  `l` = index of the latch that popJob allocated for a
+thenable job.  Returns true on abort. -/
+def jobBody (prog : Prog) (fuel : Nat) (j : Job) (l : Nat) : M k0 Bool := do
+  match j with
+  | .reaction _ _ r arg =>                          -- newPromiseReactionJob, builtin_promise.go:199-231
+    let (res, fulfill, aborted) ← match r.handler with
+      | none => pure (arg, r.isFul, false)          -- :203-207
+      | some h =>
+        match ← callFn prog fuel h .undef [.v arg] with   -- :212-215
+        | .normal v => pure (v, true, false)
+        | .throw e => pure (e, false, false)
+        | .abort => pure (Val.undef, false, true)
+    if aborted then return true
+    match r.cap with                                -- :223-229
+    | none => return false
+    | some cap =>
+      if fulfill then capResolve prog cap res else capReject cap res
+      return false
+  | .thenable _ _ thenableV thenFn =>               -- newPromiseResolveThenableJob, :175-187
+    match ← callFn prog fuel thenFn thenableV [.f (.resolve l), .f (.reject l)] with
+    | .normal _ => return false
+    | .throw e => doReject l e; return false        -- :181-185
+    | .abort => return true
+
+/-! ## The scheduler: states between body runs -/
+
+/-- Interpreter state as the scheduler sees it: some base together with a state over it. -/
+structure StU where
+  base : K
+  st : St base
+
+def StU.k (u : StU) : K := u.st.rk.val
+
+def St.withRk {k1 : K} (st : St k0) (b : BK k1) : St k1 :=
+  { rk := b, slots := st.slots, rslots := st.rslots, bad := st.bad, gslots := st.gslots, combs := st.combs,
+    asyncs := st.asyncs, events := st.events, oof := st.oof }
+
+/-- The scheduler applies a kernel op (popJob / leaveAbrupt); the result is the new base. -/
+def StU.sched (u : StU) (o : KOp) : StU := ⟨applyOp o u.k, u.st.withRk (u.st.rk.sched o)⟩
+
+/-- Forget how the current kernel state was reached from the old base. -/
+def StU.rebase (u : StU) : StU := ⟨u.k, u.st.withRk u.st.rk.rebase⟩
+
+def StU.init : StU := ⟨{}, { rk := BK.init }⟩
+
+def StU.setOof (u : StU) : StU := ⟨u.base, { u.st with oof := true }⟩
+
+/-- Run the oldest job (runtime.go:2875-2877): the scheduler starts it (popJob), then its body runs as body code
+over the new base.  Returns true on abort. -/
+def runJob (prog : Prog) (fuel : Nat) (u : StU) : Bool × StU :=
+  match u.k.jobs with
+  | [] => (false, u)
   | j :: _ =>
-    let l := k.latches.length
-    op .popJob
-    match j with
-    | .reaction _ _ r arg =>                          -- newPromiseReactionJob, builtin_promise.go:199-231
-      let (res, fulfill, aborted) ← match r.handler with
-        | none => pure (arg, r.isFul, false)          -- :203-207
-        | some h =>
-          match ← callFn prog fuel h .undef [.v arg] with   -- :212-215
-          | .normal v => pure (v, true, false)
-          | .throw e => pure (e, false, false)
-          | .abort => pure (Val.undef, false, true)
-      if aborted then return true
-      match r.cap with                                -- :223-229
-      | none => return false
-      | some cap =>
-        if fulfill then capResolve prog cap res else capReject cap res
-        return false
-    | .thenable _ _ thenableV thenFn =>               -- newPromiseResolveThenableJob, :175-187
-      match ← callFn prog fuel thenFn thenableV [.f (.resolve l), .f (.reject l)] with
-      | .normal _ => return false
-      | .throw e => doReject l e; return false        -- :181-185
-      | .abort => return true
+    let l := u.k.latches.length
+    let u1 := u.sched .popJob
+    let (ab, st2) := (jobBody prog fuel j l).run u1.st
+    (ab, ⟨u1.base, st2⟩)
 
-/-- Runtime.leave() (runtime.go:2871-2881), explicit state passing.  `c` is the double buffer: the number of oldest
-jobs that form the batch being iterated (`jobs[i:]` of the inner `range` loop); `c = 0` is the outer loop test
-`for len(r.jobQueue) > 0` followed by the swap `jobs, r.jobQueue = r.jobQueue, jobs[:0]` (the batch := everything
-queued now).  On abort the panic reaches the recover of RunProgram/runWrapped which calls leaveAbrupt.
-Returns true iff aborted. -/
-def drainS (prog : Prog) : Nat → Nat → St → Bool × St
-  | 0, _, st => (true, { st with oof := true })
-  | n + 1, c, st =>
-    if st.rk.val.jobs.isEmpty then (false, st)
+/-- Runtime.leave() (runtime.go:2871-2881).  `c` is the double buffer: the number of oldest jobs that form the batch
+being iterated (`jobs[i:]` of the inner `range` loop).  `c = 0` is the outer loop: test `for len(r.jobQueue) > 0`
+(the ONLY place where the loop can end) and swap `jobs, r.jobQueue = r.jobQueue, jobs[:0]` (batch := everything queued
+now); `c > 0` is the inner loop, which starts the next job of the batch without looking at the queue.  On abort the panic
+reaches the recover of RunProgram/runWrapped which calls leaveAbrupt.  Returns true iff aborted. -/
+def drainS (prog : Prog) : Nat → Nat → StU → Bool × StU
+  | 0, _, u => (true, u.setOof)
+  | n + 1, c, u =>
+    if c = 0 ∧ u.k.jobs.isEmpty then (false, u)
     else
-      let c := if c = 0 then st.rk.val.jobs.length else c          -- swap
-      match (runJob prog 100000).run st with                        -- job()
-      | (true, st1) => (true, { st1 with rk := st1.rk.apply .leaveAbrupt })
-      | (false, st1) => drainS prog n (c - 1) st1
+      let c := if c = 0 then u.k.jobs.length else c               -- swap
+      match runJob prog 100000 u with                              -- job()
+      | (true, u1) => (true, u1.sched .leaveAbrupt)
+      | (false, u1) => drainS prog n (c - 1) u1
 
-/-- SPECIFICATION of the drain (ECMA-262 job queue): one FIFO queue, run the oldest job until none is left. -/
-def drainF (prog : Prog) : Nat → St → Bool × St
-  | 0, st => (true, { st with oof := true })
-  | n + 1, st =>
-    if st.rk.val.jobs.isEmpty then (false, st)
+/-- SPECIFICATION of the drain (ECMA-262 job queue): one FIFO queue; while it is not empty run its oldest job. -/
+def drainF (prog : Prog) : Nat → StU → Bool × StU
+  | 0, u => (true, u.setOof)
+  | n + 1, u =>
+    if u.k.jobs.isEmpty then (false, u)
     else
-      match (runJob prog 100000).run st with
-      | (true, st1) => (true, { st1 with rk := st1.rk.apply .leaveAbrupt })
-      | (false, st1) => drainF prog n st1
+      match runJob prog 100000 u with
+      | (true, u1) => (true, u1.sched .leaveAbrupt)
+      | (false, u1) => drainF prog n u1
 
-def drain (prog : Prog) (n : Nat) : M Bool := fun st => drainS prog n 0 st
-def drainSpec (prog : Prog) (n : Nat) : M Bool := fun st => drainF prog n st
+def drain (prog : Prog) (n : Nat) (u : StU) : Bool × StU := drainS prog n 0 u
 
 /-! ## Outermost calls (RunString / Go-side resolver), parametric in the drain loop -/
 
-/-- One outermost call into the runtime: run, then leave() / leaveAbrupt().  Returns the error kind. -/
-def runSegWith (dr : Prog → Nat → M Bool) (prog : Prog) (seg : Seg) : M String := do
+/-- After the synchronous part of an outermost call: leave() or, after an abort, leaveAbrupt(). -/
+def finishCall (dr : Prog → Nat → StU → Bool × StU) (prog : Prog) (u : StU) (r : Res) : String × StU :=
+  match r with
+  | .abort => ("int", u.sched .leaveAbrupt)
+  | .throw _ => match dr prog 100000 u with
+    | (true, u1) => ("int", u1)
+    | (false, u1) => ("exc", u1)
+  | .normal _ => match dr prog 100000 u with
+    | (true, u1) => ("int", u1)
+    | (false, u1) => ("none", u1)
+
+/-- The synchronous part of an outermost call, as body code. `none` = the call does not enter the VM loop
+(Runtime.NewPromise), so no leave(). -/
+def segBody (prog : Prog) (seg : Seg) : M k0 (Option Res) := do
   match seg with
-  | .run b =>
-    match ← execBody prog 100000 b .undef with
-    | .abort => op .leaveAbrupt; return "int"
-    | .throw _ => if ← dr prog 100000 then return "int" else return "exc"
-    | .normal _ => if ← dr prog 100000 then return "int" else return "none"
+  | .run b => return some (← execBody prog 100000 b .undef)
   | .go (.gnew k g) =>
     let cap ← newCapM                                  -- Runtime.NewPromise, builtin_promise.go:628
     setSlot k cap.promise
     modify fun st => { st with gslots := setExt st.gslots g (some (cap.res, cap.rej)) none }
-    return "none"
+    return none
   | .go (.gres g v) =>
     match (← get).gslots.getD g none with
-    | none => return "none"
+    | none => return none
     | some (x, _) =>
       let val ← evalV v .undef
       match ← callFn prog 100000 x .undef [.v val] with     -- wrapPromiseReaction → runWrapped
-      | .abort => op .leaveAbrupt; return "int"
-      | _ => if ← dr prog 100000 then return "int" else return "none"
+      | .abort => return some .abort
+      | _ => return some (.normal .undef)
   | .go (.grej g v) =>
     match (← get).gslots.getD g none with
-    | none => return "none"
+    | none => return none
     | some (_, y) =>
       let val ← evalV v .undef
       match ← callFn prog 100000 y .undef [.v val] with
-      | .abort => op .leaveAbrupt; return "int"
-      | _ => if ← dr prog 100000 then return "int" else return "none"
+      | .abort => return some .abort
+      | _ => return some (.normal .undef)
 
-/-- Whole program: all outermost calls in order; result = final state + error kind of every call. -/
-def runSegsWith (dr : Prog → Nat → M Bool) (prog : Prog) : List Seg → St → List String × St
-  | [], st => ([], st)
-  | s :: rest, st =>
-    let (e, st1) := (runSegWith dr prog s).run st
-    let (es, st2) := runSegsWith dr prog rest st1
-    (e :: es, st2)
+/-- One outermost call into the runtime: run, then leave() / leaveAbrupt().  Returns the error kind. -/
+def runSegWith (dr : Prog → Nat → StU → Bool × StU) (prog : Prog) (seg : Seg) (u : StU) : String × StU :=
+  let (r, st1) := (segBody prog seg).run u.st
+  let u1 : StU := ⟨u.base, st1⟩
+  match r with
+  | none => ("none", u1)
+  | some r => finishCall dr prog u1 r
+
+/-- Whole program: all outermost calls in order; result = error kind of every call + final state. -/
+def runSegsWith (dr : Prog → Nat → StU → Bool × StU) (prog : Prog) : List Seg → StU → List String × StU
+  | [], u => ([], u)
+  | s :: rest, u =>
+    let (e, u1) := runSegWith dr prog s u
+    let (es, u2) := runSegsWith dr prog rest u1
+    (e :: es, u2)
 
 end GojaModel.C10
